@@ -44,6 +44,10 @@ struct CampaignResult {
     samples: Vec<serde_json::Value>,
     obs_xor: String,
     ids_xor: String,
+    /// per diagram kind: xor of the per-run observation digests (C20 compares these
+    /// across build configurations)
+    obs_by_kind: std::collections::BTreeMap<String, String>,
+    runs_by_kind: std::collections::BTreeMap<String, u64>,
     wall_s: f64,
 }
 
@@ -90,7 +94,9 @@ fn campaign(args: &[String]) -> i32 {
     let mut res = CampaignResult { check: check.clone(), seed, from, to, ..Default::default() };
     let mut obs_xor = 0u64;
     let mut ids_xor = 0u64;
+    let mut obs_kind: std::collections::BTreeMap<String, u64> = Default::default();
     let mut viol_f = arg(args, "--viol-file").map(|p| std::fs::OpenOptions::new().create(true).append(true).open(p).unwrap());
+    let mut dump_f = arg(args, "--dump-obs").map(|p| std::fs::File::create(p).unwrap());
     let mut prog_f = progress.as_ref().map(|p| std::fs::OpenOptions::new().create(true).append(true).open(p).unwrap());
     let ro = RunOpts::default();
     for run0 in from..to {
@@ -112,7 +118,12 @@ fn campaign(args: &[String]) -> i32 {
         let r = run_program(&p, &ro);
         res.runs += 1;
         res.steps += r.steps as u64;
+        if let Some(f) = dump_f.as_mut() {
+            let _ = writeln!(f, "{} {:?} {:016x} t{}", run, p.config.kind, r.obs_digest, p.config.threads);
+        }
         obs_xor ^= r.obs_digest.rotate_left((run % 63) as u32);
+        *obs_kind.entry(p.config.kind.name().to_string()).or_insert(0u64) ^= r.obs_digest.rotate_left((run % 63) as u32);
+        *res.runs_by_kind.entry(p.config.kind.name().to_string()).or_default() += 1;
         ids_xor ^= r.ids_digest.rotate_left((run % 63) as u32);
         let faults: u64 = r.stats.c.iter().filter(|(k, _)| k.starts_with("fault.")).map(|(_, v)| *v).sum();
         if faults > 0 {
@@ -155,6 +166,7 @@ fn campaign(args: &[String]) -> i32 {
     if let Some(f) = prog_f.as_mut() {
         let _ = writeln!(f, "DONE {} {}", seed, res.to);
     }
+    res.obs_by_kind = obs_kind.into_iter().map(|(k, v)| (k, format!("{:016x}", v))).collect();
     res.obs_xor = format!("{:016x}", obs_xor);
     res.ids_xor = format!("{:016x}", ids_xor);
     res.wall_s = t0.elapsed().as_secs_f64();
@@ -469,6 +481,10 @@ fn gen_cmd(args: &[String]) -> i32 {
 }
 
 fn main() {
+    if std::env::var_os("OXIDD_STACK_SIZE").is_none() {
+        // the manager's worker threads reserve 1 GiB of stack each by default
+        unsafe { std::env::set_var("OXIDD_STACK_SIZE", (32 * 1024 * 1024).to_string()) };
+    }
     install_quiet_panic_hook();
     let args: Vec<String> = std::env::args().skip(1).collect();
     let code = match args.first().map(|s| s.as_str()) {
